@@ -12,7 +12,8 @@ META = {
             "the window hypothesis no_wrap_in_window (fewer than vmod pushes between a head load and the CAS that "
             "compares against it; slot version fewer than vmod ahead of a taken id) and for unbounded versions: no value "
             "has two owners (free list included), the pop CAS can only succeed with an up-to-date link (ABA), a solo "
-            "allocate with a non-empty free list reuses its top and mints nothing, the cells marked ACTIVE at quiescence "
+            "allocate with a non-empty free list reuses its top and mints nothing (also after a move of the allocator: "
+            "both move members are regenerated as `= default`, a move is the identity on the state), the cells marked ACTIVE at quiescence "
             "are exactly the held values, thread ids of simultaneously live threads differ; for the box no emplace round "
             "has two winners, a take of an issued id fails only if another take already won, a won id never matches its "
             "slot again; RAII layer (DepositBox::Accessor: take into holders, move assignment, move construction, "
@@ -63,6 +64,10 @@ AL_DIRECTED = [("A,A,A,F0,F0,F0", "A|A,A,F1"), ("A,A,A,F0,F0,F0", "A,A|A,A,F1"),
                ("A,A,F0", "A|F0"), ("A,A,A,F0,F0", "A,A|F0,A"), ("A,A,F0,F0", "A,A,A|A,F0"),
                # a deallocate whose CAS fails once while two other pushes complete (version bump per retry)
                ("-", "A,F0,A,A|A,A,F0,F0,A,A")]
+# move construction at quiescence (setup op V: IdAllocator b(std::move(a)), everything afterwards runs on b): the freed
+# values must still be reused first, head version / for_each / end unchanged by the move
+AL_MOVED = [("A,A,A,F0,F0,V,A", "A|A,F0"), ("A,A,A,A,F1,F2,V", "A,A|A"), ("A,A,F0,F0,V,A,F0,V", "A,F0,A|A"),
+            ("A,A,A,F0,F0,F0,V", "A,A,A,A|-")]
 DB_SETUPS = ["-", "E", "E,E", "E,T0,R", "E,E,T0,R,T1,R", "E,T0,R,E"]
 DB_DIRECTED = [("E", "T0,R|T0,R"), ("E", "T0,R,E|T0,T1"), ("E,T0,R", "E,T1|T0,T1,R"), ("-", "E,T0,R|T0,R,E"),
                ("E,E", "T0,T1,R,R|T1,T0,R,R"), ("E", "T0,R,E,T1,R|T0,T1,T0"), ("E", "T0|T0|T0"),
@@ -215,6 +220,8 @@ def main(argv):
             add_prog("AL", 16 if i % 2 == 0 else 32, s, p, True)
         for s, p in DB_DIRECTED:
             add_prog("DB", 32, s, p, True)
+        for i, (s, p) in enumerate(AL_MOVED):           # not explored in the model (no move op there; Properties_C14.v:
+            add_prog("AL", 16 if i % 2 == 0 else 32, s, p, False)   # c14_move_transfers_free_list says it is the identity)
         directed = set(p[0] for p in progs)
         n_small, n_big = (30, 40) if not thorough else (150, 300)
         for kind, gen in (("AL", gen_al), ("DB", gen_db)):
